@@ -396,7 +396,7 @@ def gen_config(rng, prop, tier):
         break
     else:
         km = {'kind': 'hash', 'arg': 'md5', 'flat': True, 'typed': False, 'sentinel': fn in VARIADIC}
-    backend = B.config(label, B.odd_name(rng, label, 'm0')) if label else None
+    backend = B.with_link(rng, label, B.config(label, B.odd_name(rng, label, 'm0'))) if label else None
     if label and (label.startswith('dir') or label == 'sql-file') and prop in ('C01', 'C02', 'C07') and rng.chance(0.12):
         # the archive is named relative to the working directory it is opened in, and the process changes
         # directory while the decorated function lives on (directory and sqlite archives are bound when opened)
